@@ -11,7 +11,7 @@ ENGINE_ONLY_AIDS = ("C14-source-modified",)
 # addresses, so engine and native output bytes legitimately differ in block order; validation compares outcomes only
 VALIDATE_OUT_SHA = False
 BOUNDS = {
-    "quick": {"source_shapes": "skinned and unskinned shapes with shader, texture set, skin instance/data/partition (OB/FO3/SK/SSE/FO4/FO76)", "destination": "same model, fresh model of the same version, other built model", "repeat": "clone once and twice"},
+    "quick": {"source_shapes": "skinned and unskinned shapes with shader, texture set, skin instance/data/partition (OB/FO3/SK/SSE/FO4/FO76), NiTriStrips geometry (FO3, SK), a bone of a derived node type (BSValueNode)", "destination": "same model, fresh model of the same version, other built model", "repeat": "clone once and twice"},
     "thorough": {"source_shapes": "as quick plus extra data / controller / symbolic vertex payload", "destination": "all three", "repeat": "once and twice"},
 }
 ASSUMPTIONS = [
@@ -24,7 +24,7 @@ LEVEL_TEXT = ("Bounded symbolic model checking of NifFile::CloneShape / CloneChi
               "and the destination must save and reload with the clone intact.")
 LEVEL_NOTE = "Small models; payload concrete or symbolic; engine models as DESIGN.md 2.5."
 
-MODELS_Q = [(SSE, SKIN | EXTRA), (SK, SKIN), (FO4, SKIN), (OB, SKIN), (FO3, 0), (FO76, 0), (SSE, SKIN | SHADERCTRL | BONETREE), (SK, SKIN | BONETREE | SHADERCTRL), (FO4, SHADERCTRL)]
+MODELS_Q = [(SSE, SKIN | EXTRA), (SK, SKIN | BONETYPE | STRIPS), (FO4, SKIN | BONETYPE), (OB, SKIN), (FO3, STRIPS), (FO76, 0), (SSE, SKIN | SHADERCTRL | BONETREE), (SK, SKIN | BONETREE | SHADERCTRL), (FO4, SHADERCTRL)]
 
 
 def jobs(tier, seed):
